@@ -294,24 +294,29 @@ def run_live_orders(case):
 
 
 def run_live_exec(case):
-    """Requests, exchange responses (any outcome / fault), order-stream snapshots on a REAL live Flumine + BetfairExecution.
-    The thread pool is inline; packages are held until the script delivers them.  The script is ADAPTIVE (indices are taken
-    modulo what exists) and every step reports the concrete facts (which orders, which bet ids, which reports), from which
-    the harness builds the model's events.
+    """Requests, exchange responses (any outcome / fault, possibly delayed), exchange-side events and order-stream snapshots on a
+    REAL live Flumine + BetfairExecution + process_current_orders.  The exchange double keeps a consistent bet table; a call is
+    processed by the exchange when it is made ("call") and its response is handed to the framework later ("respond"), the
+    handler running in a worker thread that is blocked in between (strictly one thread runs at any time).  The script is
+    ADAPTIVE (indices are taken modulo what exists) and every step reports the concrete facts (which orders, which bet ids,
+    which reports, which rows), from which the harness builds the model's events.
     steps: ["book", status]
            ["place", strat, sel, side, price_c, size_c, trade_pick|None, async]
-           ["req", kind, order_pick, arg]
+           ["req", kind, order_pick, arg, prefer_executable]
            ["txn", [["place", ...] | ["req", ...], ...]]
-           ["deliver", pkg_pick, {"errors": n, "unknown": bool, "reports": [descriptor...], "perm": "id"|"rev"|"drop_first"|"drop_all"}]
-           ["stream", [{"pick": j | None, "foreign": [strategy idx|name, id], "status": .., "matched_frac": 0|1|2, "bet": "own"|"fresh", "sel":..}...]]
+           ["call", pkg_pick, {"errors": n, "unknown": bool, "reports": [descriptor...], "perm": "id"|"rev"|"drop_first"|"drop_all"}]
+           ["respond", call_pick]            ["deliver", pkg_pick, outcome] = call + respond
+           ["xfill", bet_pick, frac 1|2] ["xlapse", bet_pick] ["xforeign", strategy idx|"name", id, sel]
+           ["stream", "full"|"changed"|"stale"|[bet picks]]
            ["restart"]"""
-    import types
+    import types, threading
     from betfairlightweight import BetfairError, resources
     from flumine.order.trade import Trade
     from flumine.order.ordertype import LimitOrder
     from flumine.order.orderpackage import OrderPackageType
     from flumine.strategy.runnercontext import RunnerContext
     from flumine.clients.clients import ExchangeType
+    from flumine.utils import create_cheap_hash, STRATEGY_NAME_HASH_LENGTH
     import flumine.order.orderpackage as opmod
     MID = "1.101"
     Clock.now = real_datetime.datetime(2024, 1, 1, 12, 0, 0)
@@ -320,13 +325,15 @@ def run_live_exec(case):
     def counting_reset(self, trade_id):
         resets[id(self)] = resets.get(id(self), 0) + 1
         return orig_reset(self, trade_id)
+    import flumine.strategy.runnercontext as rcmod
+    lim = case.get("limits") or {}
     with mock.patch.object(market_module, "datetime", FakeDatetimeModule), mock.patch.object(opmod.time, "sleep", lambda s: None), \
-         mock.patch.object(RunnerContext, "reset", counting_reset):
+         mock.patch.object(RunnerContext, "reset", counting_reset), mock.patch.object(rcmod, "datetime", FakeDatetimeModule):
         log = []
         W = {}
         def new_framework():
             betting_client = mock.Mock(); betting_client.username = "u"; betting_client.lightweight = False
-            client = clients.BetfairClient(betting_client, min_bet_validation=False) if "min_bet_validation" in clients.BetfairClient.__init__.__code__.co_varnames else clients.BetfairClient(betting_client)
+            client = clients.BetfairClient(betting_client)
             fw = Flumine(client=client)
             class Inline:
                 _threads = []
@@ -338,8 +345,8 @@ def run_live_exec(case):
             fw.betfair_execution._thread_pool = Inline()
             sts = []
             for i in range(case["strategies"]):
-                st = Strat(i, log, market_filter={"marketIds": [MID]}, name="s%d" % i, max_trade_count=10 ** 6, max_live_trade_count=10 ** 6,
-                           max_order_exposure=10 ** 9, max_selection_exposure=10 ** 9)
+                st = Strat(i, log, market_filter={"marketIds": [MID]}, name="s%d" % i, max_trade_count=lim.get("max_trades", 10 ** 6), max_live_trade_count=lim.get("max_live", 10 ** 6),
+                           max_order_exposure=10 ** 9, max_selection_exposure=10 ** 9, multi_order_trades=lim.get("multi", False))
                 fw.add_strategy(st); sts.append(st)
             W["packages"] = []
             fw.process_order_package = lambda p: W["packages"].append(p)
@@ -348,14 +355,17 @@ def run_live_exec(case):
             q = queue.Queue()
             ls = StreamListener(output_queue=q, max_latency=None)
             ls.register_stream(stream.stream_id, "marketSubscription")
-            W.update(fw=fw, client=client, bc=betting_client, strategies=sts, stream=stream, ls=ls, q=q)
+            W.update(fw=fw, client=client, bc=betting_client, strategies=sts, stream=stream, ls=ls, q=q, calls=[])
         new_framework()
+        hashes = {st.name_hash: i for i, st in enumerate(W["strategies"])}
         ids = {}          # order.id -> name (names survive a restart: the id is what the exchange echoes back)
-        parent = {}       # replacement order id -> the id whose customer ref the exchange keeps for it
-        tnames = {}       # trade.id -> trade name
-        exch_bet = {}     # order id -> the exchange's bet id for it (allocated at placement time by the double)
+        refid = {}        # local order id -> the customer-ref id the exchange files its bet under (replacements keep the original's)
+        tnames = {}
         counters = {"o": 0, "r": 0, "t": 0, "bet": 7000, "ver": 0, "clk": 0}
-        calls = {}
+        bets = []         # the exchange's bet table
+        changed = set()
+        cache = set()
+        sent_snapshots = []
 
         def fresh_bet():
             counters["bet"] += 1
@@ -381,20 +391,25 @@ def run_live_exec(case):
             except Exception as e:
                 return "EXC:" + type(e).__name__ + ":" + str(e)[:60]
 
+        def bet_by_id(b):
+            return next((x for x in bets if x["id"] == b), None)
+
+        def remaining(b):
+            return 0 if b["complete"] else b["size"] - b["matched"] - b["cancelled"]
+
         def do_request(r, facts):
             sts = W["strategies"]
             if r[0] == "place":
                 _, si, sel, side, price, size, tpick, asyn = r
-                market = W["fw"].markets.markets[MID]
                 cands = [t for t in {id(o.trade): o.trade for o in all_orders()}.values() if t.strategy is sts[si % len(sts)] and t.selection_id == sel]
                 if tpick is not None and cands:
                     tr = cands[tpick % len(cands)]
                 else:
-                    tr = Trade(MID, sel, 0, sts[si % len(sts)])
+                    tr = Trade(MID, sel, 0, sts[si % len(sts)], place_reset_seconds=lim.get("place_reset", 0.0), reset_seconds=lim.get("reset", 0.0))
                 o = tr.create_order(side, LimitOrder(price / 100, size / 100, persistence_type="LAPSE"))
                 nm = "o%d" % counters["o"]; counters["o"] += 1
                 ids[o.id] = nm
-                facts.append({"req": "place", "order": nm, "trade": tname(tr), "strategy": si % len(sts), "sel": sel, "side": side, "price": price, "size": size, "async": bool(asyn)})
+                facts.append({"req": "place", "order": nm, "trade": tname(tr), "trade_known": any(x.trade is tr for x in all_orders()), "clock": Clock.now.timestamp(), "strategy": si % len(sts), "sel": sel, "side": side, "price": price, "size": size, "async": bool(asyn)})
                 return lambda t: t.place_order(o)
             _, kind, pick, arg = r[:4]
             os_ = all_orders()
@@ -411,100 +426,186 @@ def run_live_exec(case):
                 return lambda t: t.update_order(o, arg)
             return lambda t: t.replace_order(o, arg / 100)
 
-        def fake_call(kind, outcome, pkg, sent):
-            attempts = {"n": 0}
-            def call(**kw):
-                attempts["n"] += 1
-                calls[id(pkg)] = attempts["n"]
-                if outcome.get("unknown"):
-                    raise RuntimeError("boom")
-                if attempts["n"] <= outcome.get("errors", 0):
-                    raise BetfairError("api error")
-                ins = kw.get("instructions") or []
-                descs = outcome.get("reports") or []
-                D = lambda i: descs[i % len(descs)] if descs else {}
-                by_ref = {o.customer_order_ref: o for o in pkg._orders}
-                by_bet = {o.bet_id: o for o in pkg._orders if o.bet_id is not None}
-                reps = []
-                del sent[:]
-                if kind == "place":
-                    for k, i in enumerate(ins):
-                        o = by_ref[i["customerOrderRef"]]; d = D(k)
-                        st = d.get("status", "SUCCESS")
-                        rep = {"status": st, "instruction": {"selectionId": o.selection_id, "side": o.side, "orderType": "LIMIT", "limitOrder": {"size": o.order_type.size, "price": o.order_type.price, "persistenceType": "LAPSE"}}}
-                        bet = None
-                        if st == "SUCCESS" or d.get("with_bet"):
-                            bet = exch_bet.setdefault(o.id, fresh_bet())
-                            rep["betId"] = bet
-                        m = 0
+        def exchange(kind, outcome, pkg, ins, sent):
+            """the exchange processes the instructions NOW; returns the response resource"""
+            descs = outcome.get("reports") or []
+            D = lambda i: descs[i % len(descs)] if descs else {}
+            by_ref = {o.customer_order_ref: o for o in pkg._orders}
+            sts = W["strategies"]
+            reps = []
+            if kind == "place":
+                for k, i in enumerate(ins):
+                    o = by_ref[i["customerOrderRef"]]; d = D(k)
+                    st = d.get("status", "SUCCESS")
+                    size = int(round(o.order_type.size * 100))
+                    rep = {"status": st, "instruction": {"selectionId": o.selection_id, "side": o.side, "orderType": "LIMIT", "limitOrder": {"size": o.order_type.size, "price": o.order_type.price, "persistenceType": "LAPSE"}}}
+                    bet, m, ost = None, 0, None
+                    if st == "SUCCESS" or (st == "TIMEOUT" and d.get("with_bet")):
+                        m = size * d.get("matched_frac", 0) // 2
+                        expired = d.get("order_status") == "EXPIRED"
+                        if expired:
+                            m = 0
+                        b = {"id": fresh_bet(), "ref_id": o.id, "strategy": sts.index(o.trade.strategy), "sel": o.selection_id, "side": o.side, "price": int(round(o.order_type.price * 100)),
+                             "size": size, "matched": m, "cancelled": size if expired else 0, "complete": expired or m == size}
+                        refid[o.id] = o.id
+                        bets.append(b); changed.add(b["id"])
                         if st == "SUCCESS":
-                            m = int(round(o.order_type.size * 100)) * d.get("matched_frac", 0) // 2
-                            rep["orderStatus"] = d.get("order_status", "EXECUTABLE"); rep["sizeMatched"] = m / 100; rep["averagePriceMatched"] = o.order_type.price if m else 0.0
-                            if rep["orderStatus"] == "PENDING":     # async: the report carries no bet id yet
-                                rep.pop("betId"); bet = None
+                            if pkg.async_:
+                                ost = "PENDING"; m = 0       # async: the report carries neither bet id nor sizes
+                            else:
+                                bet = b["id"]; rep["betId"] = bet
+                                ost = "EXPIRED" if expired else ("EXECUTION_COMPLETE" if b["complete"] else "EXECUTABLE")
+                            rep["orderStatus"] = ost; rep["sizeMatched"] = m / 100; rep["averagePriceMatched"] = o.order_type.price if m else 0.0
                         else:
-                            rep["errorCode"] = "ERROR_IN_ORDER"
-                        reps.append(rep)
-                        sent.append({"order": name_of(o), "status": st, "order_status": rep.get("orderStatus"), "bet": bet, "matched": m})
-                    return resources.PlaceOrders(elapsed_time=0.1, **{"marketId": pkg.market_id, "status": "SUCCESS", "instructionReports": reps})
-                if kind == "cancel":
-                    seq = list(enumerate(ins))
-                    perm = outcome.get("perm", "id")
-                    if perm == "rev":
-                        seq = seq[::-1]
-                    elif perm == "drop_first":
-                        seq = seq[1:]
-                    elif perm == "drop_all":
-                        seq = []
-                    for k, i in seq:
-                        o = by_bet[i["betId"]]; d = D(k)
-                        st = d.get("status", "SUCCESS")
-                        rep = {"status": st, "instruction": {"betId": i["betId"]}}
-                        sc = None
-                        if st == "SUCCESS":
-                            rem = int(round(o.size_remaining * 100))
-                            sc = {"all": rem, "half": rem // 2, "zero": 0}[d.get("size", "all")]
-                            rep["sizeCancelled"] = sc / 100
-                        elif st == "FAILURE":
-                            rep["errorCode"] = d.get("error_code", "ERROR_IN_ORDER")
-                        reps.append(rep)
-                        sent.append({"order": name_of(o), "bet": i["betId"], "status": st, "size_cancelled": sc, "taken_or_lapsed": rep.get("errorCode") == "BET_TAKEN_OR_LAPSED"})
-                    return resources.CancelOrders(elapsed_time=0.1, **{"marketId": pkg.market_id, "status": "SUCCESS", "instructionReports": reps})
-                if kind == "update":
-                    for k, i in enumerate(ins):
-                        o = by_bet[i["betId"]]; d = D(k)
-                        st = d.get("status", "SUCCESS")
-                        rep = {"status": st, "instruction": {"betId": i["betId"], "newPersistenceType": i["newPersistenceType"]}}
-                        if st == "FAILURE":
-                            rep["errorCode"] = "ERROR_IN_ORDER"
-                        reps.append(rep)
-                        sent.append({"order": name_of(o), "status": st})
-                    return resources.UpdateOrders(elapsed_time=0.1, **{"marketId": pkg.market_id, "status": "SUCCESS", "instructionReports": reps})
+                            m = 0
+                    elif st == "FAILURE":
+                        rep["errorCode"] = "ERROR_IN_ORDER"
+                    reps.append(rep)
+                    sent.append({"order": name_of(o), "status": st, "order_status": ost, "bet": bet, "matched": m})
+                return resources.PlaceOrders(elapsed_time=0.1, **{"marketId": pkg.market_id, "status": "SUCCESS", "instructionReports": reps})
+            by_bet = {o.bet_id: o for o in pkg._orders if o.bet_id is not None}
+            def xcancel(b, reduction, d, st):
+                """-> (status, size_cancelled, error_code)"""
+                if st == "SUCCESS" and (b is None or b["complete"]):
+                    st = "FAILURE"; code = "BET_TAKEN_OR_LAPSED"
+                elif st == "FAILURE":
+                    code = "BET_TAKEN_OR_LAPSED" if (b is None or b["complete"]) else "ERROR_IN_ORDER"
+                else:
+                    code = None
+                sc = None
+                if st == "SUCCESS" or (st == "TIMEOUT" and d.get("with_bet") and b is not None and not b["complete"]):
+                    rem = remaining(b)
+                    sc = rem if reduction is None else min(int(round(reduction * 100)), rem)
+                    b["cancelled"] += sc
+                    if remaining(b) == 0:
+                        b["complete"] = True
+                    changed.add(b["id"])
+                return st, (sc if st == "SUCCESS" else None), code
+            if kind == "cancel":
+                seq = list(enumerate(ins))
+                perm = outcome.get("perm", "id")
+                done = []
+                for k, i in seq:       # the exchange processes every instruction; the report list may be permuted / incomplete
+                    o = by_bet[i["betId"]]; d = D(k)
+                    st, sc, code = xcancel(bet_by_id(i["betId"]), i.get("sizeReduction"), d, d.get("status", "SUCCESS"))
+                    rep = {"status": st, "instruction": {"betId": i["betId"]}}
+                    if sc is not None:
+                        rep["sizeCancelled"] = sc / 100
+                    if code:
+                        rep["errorCode"] = code
+                    done.append((rep, {"order": name_of(o), "bet": i["betId"], "status": st, "size_cancelled": sc, "taken_or_lapsed": code == "BET_TAKEN_OR_LAPSED"}))
+                if perm == "rev":
+                    done = done[::-1]
+                elif perm == "drop_first":
+                    done = done[1:]
+                elif perm == "drop_all":
+                    done = []
+                for rep, fct in done:
+                    reps.append(rep); sent.append(fct)
+                return resources.CancelOrders(elapsed_time=0.1, **{"marketId": pkg.market_id, "status": "SUCCESS", "instructionReports": reps})
+            if kind == "update":
                 for k, i in enumerate(ins):
                     o = by_bet[i["betId"]]; d = D(k)
-                    cs, ps = d.get("cancel", "SUCCESS"), d.get("place", "SUCCESS")
-                    if int(round(o.size_remaining * 100)) == 0 and cs == "SUCCESS":
-                        cs = "FAILURE"                               # nothing left to cancel
-                    if cs != "SUCCESS":
-                        ps = "FAILURE" if ps == "SUCCESS" else ps    # the exchange places only after a successful cancel
-                    c = {"status": cs, "instruction": {"betId": i["betId"]}}
-                    rem = int(round(o.size_remaining * 100))
-                    if cs == "SUCCESS":
-                        c["sizeCancelled"] = rem / 100
-                    elif cs == "FAILURE":
-                        c["errorCode"] = "ERROR_IN_ORDER"
-                    pl = {"status": ps, "instruction": {"selectionId": o.selection_id, "side": o.side, "orderType": "LIMIT",
-                                                        "limitOrder": {"size": rem / 100, "price": i["newPrice"], "persistenceType": "LAPSE"}}}
-                    bet = None
-                    if ps == "SUCCESS":
-                        bet = fresh_bet()
-                        pl["betId"] = bet; pl["orderStatus"] = "EXECUTABLE"; pl["sizeMatched"] = 0.0; pl["averagePriceMatched"] = 0.0
-                    else:
-                        pl["errorCode"] = "ERROR_IN_ORDER"
-                    reps.append({"status": "SUCCESS" if cs == ps == "SUCCESS" else "FAILURE", "cancelInstructionReport": c, "placeInstructionReport": pl})
-                    sent.append({"order": name_of(o), "cancel": cs, "place": ps, "bet": bet, "price": int(round(i["newPrice"] * 100)), "size": rem})
-                return resources.ReplaceOrders(elapsed_time=0.1, **{"marketId": pkg.market_id, "status": "SUCCESS", "instructionReports": reps})
-            return call
+                    st = d.get("status", "SUCCESS")
+                    b = bet_by_id(i["betId"])
+                    if st == "SUCCESS" and (b is None or b["complete"]):
+                        st = "FAILURE"
+                    rep = {"status": st, "instruction": {"betId": i["betId"], "newPersistenceType": i["newPersistenceType"]}}
+                    if st == "FAILURE":
+                        rep["errorCode"] = "BET_TAKEN_OR_LAPSED" if (b is None or b["complete"]) else "ERROR_IN_ORDER"
+                    reps.append(rep)
+                    sent.append({"order": name_of(o), "status": st})
+                return resources.UpdateOrders(elapsed_time=0.1, **{"marketId": pkg.market_id, "status": "SUCCESS", "instructionReports": reps})
+            for k, i in enumerate(ins):
+                o = by_bet[i["betId"]]; d = D(k)
+                b = bet_by_id(i["betId"])
+                rem = remaining(b) if b is not None else 0
+                cs, sc, code = xcancel(b, None, d, d.get("cancel", "SUCCESS"))
+                ps = d.get("place", "SUCCESS")
+                if cs != "SUCCESS":
+                    ps = "FAILURE" if ps == "SUCCESS" else ps    # the exchange places only after a successful cancel
+                c = {"status": cs, "instruction": {"betId": i["betId"]}}
+                if cs == "SUCCESS":
+                    c["sizeCancelled"] = sc / 100
+                elif cs == "FAILURE":
+                    c["errorCode"] = code
+                pl = {"status": ps, "instruction": {"selectionId": o.selection_id, "side": o.side, "orderType": "LIMIT",
+                                                    "limitOrder": {"size": (sc or 0) / 100, "price": i["newPrice"], "persistenceType": "LAPSE"}}}
+                bet = None
+                if ps == "SUCCESS":
+                    nb = {"id": fresh_bet(), "ref_id": b["ref_id"], "strategy": b["strategy"], "sel": b["sel"], "side": b["side"], "price": int(round(i["newPrice"] * 100)),
+                          "size": sc, "matched": 0, "cancelled": 0, "complete": False}
+                    bets.append(nb); changed.add(nb["id"])
+                    bet = nb["id"]
+                    pl["betId"] = bet; pl["orderStatus"] = "EXECUTABLE"; pl["sizeMatched"] = 0.0; pl["averagePriceMatched"] = 0.0
+                else:
+                    pl["errorCode"] = "ERROR_IN_ORDER"
+                reps.append({"status": "SUCCESS" if cs == ps == "SUCCESS" else "FAILURE", "cancelInstructionReport": c, "placeInstructionReport": pl})
+                sent.append({"order": name_of(o), "cancel": cs, "place": ps, "bet": bet, "price": int(round(i["newPrice"] * 100)), "size": sc or 0})
+            return resources.ReplaceOrders(elapsed_time=0.1, **{"marketId": pkg.market_id, "status": "SUCCESS", "instructionReports": reps})
+
+        def start_call(pkg, outcome):
+            kind = {OrderPackageType.PLACE: "place", OrderPackageType.CANCEL: "cancel", OrderPackageType.UPDATE: "update", OrderPackageType.REPLACE: "replace"}[pkg.package_type]
+            c = {"pkg": pkg, "kind": kind, "outcome": outcome, "sent": [], "attempts": 0, "answered": False, "progress": threading.Event(), "release": threading.Event(), "exc": None, "done": False,
+                 "orders": [name_of(o) for o in pkg._orders], "before": [o.status.value for o in pkg._orders], "instructed": []}
+            def call(**kw):
+                c["attempts"] += 1
+                if outcome.get("unknown"):
+                    raise RuntimeError("boom")
+                if c["attempts"] <= outcome.get("errors", 0):
+                    raise BetfairError("api error")
+                ins = kw.get("instructions") or []
+                resp = exchange(kind, outcome, pkg, ins, c["sent"])
+                c["answered"] = True
+                c["progress"].set()
+                c["release"].wait()
+                return resp
+            getattr(W["bc"].betting, kind + "_orders").side_effect = call
+            fw = W["fw"]
+            def target():
+                try:
+                    fw.betfair_execution.handler(pkg)
+                except Exception as e:
+                    c["exc"] = type(e).__name__ + ":" + str(e)[:80]
+                c["done"] = True
+                c["progress"].set()
+            c["thread"] = threading.Thread(target=target, daemon=True)
+            c["thread"].start()
+            c["progress"].wait()
+            return c
+
+        def finish_call(c, quiet=False):
+            if not c["done"]:
+                c["progress"].clear()
+                c["release"].set()
+                c["progress"].wait()
+                c["thread"].join()
+            res = {"kind": c["kind"], "orders": c["orders"], "before": c["before"], "calls": c["attempts"], "responded": c["answered"], "sent": c["sent"] if c["answered"] else [],
+                   "unknown": bool(c["outcome"].get("unknown"))}
+            if c["exc"]:
+                res["exc"] = c["exc"]
+            if c["kind"] == "replace" and c["answered"] and not quiet:
+                for x in c["sent"]:
+                    if x["bet"] is not None:
+                        r_ = [o for o in all_orders() if o.bet_id == x["bet"]]
+                        if r_:
+                            x["new_order"] = name_of(r_[0])
+            return res
+
+        def row_of(b):
+            h = W["strategies"][b["strategy"]].name_hash if isinstance(b["strategy"], int) else create_cheap_hash(b["strategy"], STRATEGY_NAME_HASH_LENGTH)
+            f = lambda v: v / 100
+            return types.SimpleNamespace(
+                customer_order_ref="%s-%s" % (h, b["ref_id"]), customer_strategy_ref="x", market_id=MID, bet_id=b["id"], selection_id=b["sel"], handicap=0,
+                order_type="LIMIT", side=b["side"], status="EXECUTION_COMPLETE" if b["complete"] else "EXECUTABLE", persistence_type="LAPSE",
+                price_size=types.SimpleNamespace(price=b["price"] / 100, size=b["size"] / 100),
+                size_matched=f(b["matched"]), size_remaining=f(remaining(b)), size_cancelled=f(b["cancelled"]), size_lapsed=0.0, size_voided=0.0,
+                average_price_matched=b["price"] / 100 if b["matched"] else 0.0, bsp_liability=0.0,
+                placed_date=Clock.now, matched_date=None, cancelled_date=None, lapsed_date=None)
+
+        def fact_of(b):
+            return {"ref_order": ids.get(b["ref_id"], "f%s" % b["ref_id"]), "bet": b["id"], "complete": b["complete"], "matched": b["matched"], "remaining": remaining(b), "cancelled": b["cancelled"],
+                    "strategy": b["strategy"] if isinstance(b["strategy"], int) else None, "sel": b["sel"], "size": b["size"], "price": b["price"]}
 
         def dump():
             client, sts = W["client"], W["strategies"]
@@ -519,7 +620,7 @@ def run_live_exec(case):
                                     "bet": o.bet_id, "matched": int(round((o.size_matched or 0) * 100)), "remaining": int(round((o.size_remaining or 0) * 100)),
                                     "live": o in market.blotter._live_orders, "trade_status": o.trade.status.value, "trade_log": [x.value for x in o.trade.status_log],
                                     "trade": tname(o.trade), "trade_orders": sorted(ids.get(x.id, "?") for x in o.trade.orders),
-                                    "async": bool(o.async_), "size": int(round((o.order_type.size or 0) * 100)), "price": int(round(o.order_type.price * 100)),
+                                    "async": bool(o.async_), "size": int(round((o.order_type.size or 0) * 100)), "price": int(round(o.order_type.price * 100)), "side": o.side,
                                     "bet_lookup_ok": (market.blotter._bet_id_lookup.get(o.bet_id) is o) if o.bet_id is not None else None})
             for i, st in enumerate(sts):
                 for k, rc in st._invested.items():
@@ -559,65 +660,79 @@ def run_live_exec(case):
                         if f["req"] == "place":
                             f["async"] = bool(asyn)      # async is a property of the transaction
                     res = {"facts": facts, "results": rs, "new_packages": [[p.package_type.value, [name_of(o) for o in p._orders]] for p in W["packages"][n0:]]}
-            elif step[0] == "deliver":
+            elif step[0] in ("deliver", "call"):
                 pend = [p for p in W["packages"] if p is not None]
                 if pend:
                     pkg = pend[step[1] % len(pend)]
                     W["packages"][W["packages"].index(pkg)] = None
-                    outcome = step[2]
-                    kind = {OrderPackageType.PLACE: "place", OrderPackageType.CANCEL: "cancel", OrderPackageType.UPDATE: "update", OrderPackageType.REPLACE: "replace"}[pkg.package_type]
-                    sent = []
-                    bet = W["bc"].betting
-                    getattr(bet, kind + "_orders").side_effect = fake_call(kind, outcome, pkg, sent)
-                    res = {"kind": kind, "orders": [name_of(o) for o in pkg._orders], "before": [o.status.value for o in pkg._orders]}
-                    try:
-                        fw.betfair_execution.handler(pkg)
-                    except Exception as e:
-                        res["exc"] = type(e).__name__ + ":" + str(e)[:80]
-                    res["calls"] = calls.get(id(pkg), 0)
-                    res["responded"] = (not outcome.get("unknown")) and res["calls"] > outcome.get("errors", 0)
-                    res["sent"] = sent if res["responded"] else []
-                    # replacement orders created by this response get the customer ref of the order they replace
-                    if kind == "replace" and res["responded"]:
-                        for x in sent:
-                            if x["bet"] is not None:
-                                r_ = [o for o in all_orders() if o.bet_id == x["bet"]]
-                                if r_:
-                                    par = [o for o in pkg._orders if name_of(o) == x["order"]][0]
-                                    parent[r_[0].id] = parent.get(par.id, par.id)
-                                    exch_bet[r_[0].id] = x["bet"]
-                                    x["new_order"] = name_of(r_[0])
-            elif step[0] == "stream":
-                rows, facts = [], []
-                os_ = all_orders()
-                for d in step[1]:
-                    if d.get("foreign") is not None:
-                        si, fid = d["foreign"]
-                        r = {"ref": ["foreign", si, fid], "market": MID, "bet": exch_bet.setdefault("F" + str(fid), fresh_bet()), "status": d["status"], "sel": d.get("sel", 101), "price": 200}
-                        size = 400
-                        nm, known = "f%s" % fid, isinstance(si, int)
-                        ids.setdefault(str(fid), nm)
-                        sidx = si if known else None
-                        ref_id = str(fid)
+                    c = start_call(pkg, step[2])
+                    if step[0] == "deliver" or c["done"]:
+                        res = finish_call(c)
                     else:
-                        if not os_:
-                            continue
-                        cand = ([o for o in os_ if not o.complete] or os_) if d.get("prefer_live") else os_
-                        o = cand[d["pick"] % len(cand)]
-                        ref_id = parent.get(o.id, o.id)
-                        bet = exch_bet.setdefault(o.id, fresh_bet()) if d.get("bet", "own") == "own" else fresh_bet()
-                        size = int(round(o.order_type.size * 100))
-                        sidx = W["strategies"].index(o.trade.strategy)
-                        r = {"ref": ["foreign", sidx, ref_id], "market": MID, "bet": bet, "status": d["status"], "sel": o.selection_id, "price": int(round(o.order_type.price * 100)), "side": o.side}
-                        nm = ids[ref_id]
-                    complete = d["status"] in ("EXECUTION_COMPLETE", "EXPIRED")
-                    m = size * d.get("matched_frac", 0) // 2
-                    r["matched"] = m
-                    r["remaining"] = 0 if complete else size - m
-                    r["cancelled"] = size - m if complete else 0
-                    rows.append(current_order_row(r, {}, W["strategies"]))
-                    facts.append({"ref_order": nm, "bet": r["bet"], "complete": complete, "matched": m, "remaining": r["remaining"], "cancelled": r["cancelled"],
-                                  "strategy": sidx, "sel": r["sel"], "size": size, "price": r["price"]})
+                        W["calls"].append(c)
+                        res = {"called": c["kind"], "orders": c["orders"]}
+            elif step[0] == "advance":
+                Clock.now = Clock.now + real_datetime.timedelta(seconds=step[1])
+                res = {"advanced": step[1]}
+            elif step[0] == "drain":
+                rs = []
+                k = 0
+                while W["calls"] or any(p is not None for p in W["packages"]):
+                    if W["calls"]:
+                        rs.append(finish_call(W["calls"].pop(0)))
+                    else:
+                        pkg = next(p for p in W["packages"] if p is not None)
+                        W["packages"][W["packages"].index(pkg)] = None
+                        rs.append(finish_call(start_call(pkg, step[1][k % len(step[1])]))); k += 1
+                    rs[-1]["tx_after"] = dump()["tx"]
+                res = {"drained": rs}
+            elif step[0] == "respond":
+                if W["calls"]:
+                    c = W["calls"].pop(step[1] % len(W["calls"]))
+                    res = finish_call(c)
+            elif step[0] == "xfill":
+                live = [b for b in bets if not b["complete"]]
+                if live:
+                    b = live[step[1] % len(live)]
+                    amt = remaining(b) if step[2] >= 2 else remaining(b) // 2
+                    b["matched"] += amt
+                    if remaining(b) == 0:
+                        b["complete"] = True
+                    changed.add(b["id"])
+                    res = {"x": "fill", "bet": b["id"], "amount": amt}
+            elif step[0] == "xlapse":
+                live = [b for b in bets if not b["complete"]]
+                if live:
+                    b = live[step[1] % len(live)]
+                    b["cancelled"] += remaining(b); b["complete"] = True
+                    changed.add(b["id"])
+                    res = {"x": "lapse", "bet": b["id"]}
+            elif step[0] == "xforeign":
+                _, si, fid, sel = step
+                if not any(b["ref_id"] == str(fid) for b in bets):
+                    b = {"id": fresh_bet(), "ref_id": str(fid), "strategy": (si % len(W["strategies"])) if isinstance(si, int) else si, "sel": sel, "side": "BACK", "price": 200, "size": 400, "matched": 0,
+                         "cancelled": 0, "complete": False}
+                    ids.setdefault(str(fid), "f%s" % fid)
+                    bets.append(b); changed.add(b["id"])
+                    res = {"x": "foreign", "bet": b["id"]}
+            elif step[0] == "stream":
+                mode = step[1]
+                if mode == "stale" and sent_snapshots:
+                    rows, facts = sent_snapshots[len(sent_snapshots) // 2]
+                else:
+                    cache.update(changed)
+                    if mode == "full":        # what betfairlightweight hands over: every order in its cache of the market since (re)connection
+                        sel_ = [b for b in bets if b["id"] in cache]
+                    elif mode == "everything":
+                        sel_ = list(bets)
+                    elif mode == "changed" or mode == "stale":
+                        sel_ = [b for b in bets if b["id"] in changed]
+                    else:
+                        sel_ = [bets[k % len(bets)] for k in mode] if bets else []
+                    rows, facts = [row_of(b) for b in sel_], [fact_of(b) for b in sel_]
+                    if mode in ("full", "changed", "everything"):
+                        changed.clear()
+                    sent_snapshots.append((rows, facts))
                 co = types.SimpleNamespace(client=W["client"], orders=rows)
                 res = {"rows": facts}
                 try:
@@ -625,12 +740,21 @@ def run_live_exec(case):
                 except Exception as e:
                     res["exc"] = type(e).__name__ + ":" + str(e)[:100]
             elif step[0] == "restart":
+                for c in W["calls"]:
+                    finish_call(c, quiet=True)      # the old process is gone; whatever its threads still do is invisible
                 new_framework()
+                changed.clear(); cache.clear()
+                cache.update(b["id"] for b in bets if not b["complete"])      # the initial image of a new subscription holds the live orders only
                 res = {"restart": True}
             d = dump()
             d["res"] = res
             d["pending_packages"] = [[p.package_type.value, [name_of(o) for o in p._orders]] for p in W["packages"] if p is not None]
+            d["outstanding_calls"] = [[c["kind"], c["orders"]] for c in W["calls"]]
+            d["clock"] = Clock.now.timestamp()
+            d["exchange"] = [dict(b, ref=ids.get(b["ref_id"], "f%s" % b["ref_id"]), remaining=remaining(b)) for b in bets]
             out.append(d)
+        for c in W["calls"]:
+            finish_call(c, quiet=True)
         return out
 
 
